@@ -16,7 +16,8 @@ def consCounts (q : Query) : Json :=
   Json.mkObj [
     ("conn", n fun | .conn .. => true | _ => false),
     ("ringSize", n fun | .ringSize .. => true | _ => false),
-    ("radical", n fun | .radical .. => true | _ => false),
+    ("radical", (n fun | .radical .. => true | _ => false) +
+      (q.atoms.map fun a => ((Match.typeCons a.ty).filter fun | .radical .. => true | _ => false).length).sum),
     ("nRing", n fun | .nRing .. => true | _ => false)]
 
 def readSummary : Except ReadErr Query → Json
